@@ -435,3 +435,87 @@ func H_C16_extensionLists() {
 	vfAssert(err2 == nil && t2 == t1, "asking again for the same name returns the identical template")
 	vfAssert(len(l.calls) == 0, "... without touching the loader")
 }
+
+// H_C16_includeHistory: a template that includes /part.jet and optionally includes
+// /extra.jet (includeIfExists) is loaded once and executed twice with a loader edit in
+// between (part changed or deleted; extra created, changed or deleted), in production and
+// development mode: a lookup that failed is retried (an extra that appears is included on
+// the next execution, in both modes); in development mode every execution re-reads the
+// loader (edits and deletions are visible at once); in production mode what was loaded
+// successfully keeps being served.
+//
+//gosym:reach rendered
+func H_C16_includeHistory() {
+	dev := ndBool("dev")
+	extraFirst := ndBool("extraFirst") // /extra.jet exists before the first execution
+	edit := ndChoice("edit", 5)        // 0 none, 1 part changed, 2 part deleted, 3 extra created/changed, 4 extra deleted
+	l := NewInMemLoader()
+	l.Set("/page.jet", `<{{ include "/part.jet" }}>[{{ if includeIfExists("/extra.jet") }}+{{ else }}-{{ end }}]`)
+	l.Set("/part.jet", "v1")
+	if extraFirst {
+		l.Set("/extra.jet", "e1")
+	}
+	set := NewSet(l, DevelopmentMode(dev))
+	t, err := set.GetTemplate("/page.jet")
+	vfAssert(err == nil, "page loads")
+	if err != nil {
+		return
+	}
+	run := func() string {
+		var b bytes.Buffer
+		if t.Execute(&b, nil, nil) != nil {
+			return b.String() + "<err>"
+		}
+		return b.String()
+	}
+	first := run()
+	w1 := "<v1>[-]"
+	if extraFirst {
+		w1 = "<v1>[e1+]"
+	}
+	vfAssert(first == w1, "first execution")
+	part, partOK, extra, extraOK := "v1", true, "e1", extraFirst
+	switch edit {
+	case 1:
+		l.Set("/part.jet", "v2")
+		part = "v2"
+	case 2:
+		l.Delete("/part.jet")
+		partOK = false
+	case 3:
+		l.Set("/extra.jet", "e2")
+		extra, extraOK = "e2", true
+	case 4:
+		l.Delete("/extra.jet")
+		extraOK = false
+	}
+	second := run()
+	vfReach("rendered")
+	var want string
+	if dev {
+		// always the loader's current state
+		if !partOK {
+			want = "<<err>"
+		} else {
+			want = "<" + part + ">["
+			if extraOK {
+				want += extra + "+]"
+			} else {
+				want += "-]"
+			}
+		}
+	} else {
+		// what loaded successfully is remembered; what failed is retried
+		want = "<v1>["
+		switch {
+		case extraFirst:
+			want += "e1+]"
+		case extraOK:
+			want += extra + "+]"
+		default:
+			want += "-]"
+		}
+	}
+	vfNote(second)
+	vfAssert(second == want, "failed lookups are retried; development mode re-reads the loader; production mode serves what it remembered")
+}
